@@ -57,13 +57,14 @@ def splitlines_sites(m: Module) -> list[tuple[str, ast.Call, bool, bool]]:
                             elems.add(x.id)
             accumulated = False
             for n in ast.walk(fn):
+                # len(piece) used additively: `total += len(line)`, `end = start + len(line) + 1`, sum(len(l) ...)
                 val = None
                 if isinstance(n, ast.AugAssign) and isinstance(n.op, ast.Add):
                     val = n.value
                 elif isinstance(n, ast.Call) and isinstance(n.func, ast.Name) and n.func.id == "sum" and n.args:
                     val = n.args[0]
-                elif isinstance(n, ast.Assign) and isinstance(n.value, ast.BinOp) and isinstance(n.value.op, ast.Add) and isinstance(n.targets[0], ast.Name) and any(isinstance(x, ast.Name) and x.id == n.targets[0].id for x in ast.walk(n.value)):
-                    val = n.value
+                elif isinstance(n, ast.BinOp) and isinstance(n.op, ast.Add):
+                    val = n
                 if val is None:
                     continue
                 for c in ast.walk(val):
@@ -72,6 +73,35 @@ def splitlines_sites(m: Module) -> list[tuple[str, ast.Call, bool, bool]]:
                         if (isinstance(a, ast.Name) and a.id in elems) or (isinstance(a, ast.Subscript) and isinstance(a.value, ast.Name) and a.value.id in line_lists):
                             accumulated = True
             out.append((qualname_of(m, call), call, _keepends(call), accumulated))
+    return out
+
+
+def mixed_notions(m: Module) -> list[tuple[str, str]]:
+    """(qualname, description) where a line number obtained by counting "\\n" indexes the list made by splitlines():
+    the two disagree after a trailing newline (count + 1 lines, splitlines() one fewer) and on \\r, \\x0b, \\x0c,
+    \\x1c-\\x1e, \\x85, \\u2028, \\u2029, which only splitlines() treats as line breaks."""
+    out = []
+    for fn in [n for n in ast.walk(m.tree) if isinstance(n, (ast.FunctionDef, ast.AsyncFunctionDef))]:
+        line_lists: set[str] = set()
+        counted: set[str] = set()
+        for n in ast.walk(fn):
+            if isinstance(n, (ast.Assign, ast.AnnAssign)) and n.value is not None:
+                tg = n.targets[0] if isinstance(n, ast.Assign) else n.target
+                names = [t.id for t in ast.walk(tg) if isinstance(t, ast.Name)]
+                calls = [c for c in ast.walk(n.value) if isinstance(c, ast.Call) and isinstance(c.func, ast.Attribute)]
+                if any(c.func.attr == "splitlines" for c in calls):
+                    line_lists.update(names)
+                if any(c.func.attr == "count" and c.args and isinstance(c.args[0], ast.Constant) and c.args[0].value in ("\n", "\r\n") for c in calls):
+                    counted.update(names)
+        # propagate one step: x = counted - 1
+        for _ in range(2):
+            for n in ast.walk(fn):
+                if isinstance(n, ast.Assign) and isinstance(n.targets[0], ast.Name) and any(isinstance(x, ast.Name) and x.id in counted for x in ast.walk(n.value)):
+                    counted.add(n.targets[0].id)
+        for n in ast.walk(fn):
+            if isinstance(n, ast.Subscript) and isinstance(n.value, ast.Name) and n.value.id in line_lists and not isinstance(n.slice, ast.Slice):
+                if any(isinstance(x, ast.Name) and x.id in counted for x in ast.walk(n.slice)):
+                    out.append((qualname_of(m, n), ast.unparse(n)))
     return out
 
 
@@ -89,6 +119,12 @@ def apply(check, repo, rule: str, rels: list[str], floor: int) -> None:
             good = "offset -> line over a partition of the text (splitlines(keepends=True))" if keep else "splitlines() pieces are not used for offset arithmetic"
             check.oblige(rule, construct, good if ok else sig, ok,
                          finding=Finding(rule, construct, sig, f"{q}: `{ast.unparse(call)}` drops the line terminators but the lengths of its pieces are summed to locate an offset; with \"\\r\\n\" the computed line:column drifts by one per preceding line", {}))
+    for rel in rels:
+        m = repo.mod(rel)
+        for q, expr in mixed_notions(m):
+            construct = f"{rel}::{q}"
+            sig = "a line number counted with count(\"\\n\") indexes the list made by splitlines()"
+            check.oblige(rule, construct, sig, False, finding=Finding(rule, construct, sig, f"{q}: `{expr}` — after a trailing newline count(\"\\n\") + 1 names a line splitlines() does not return (IndexError), and the two disagree on which characters end a line", {}))
     check.count("splitlines_sites", n)
     if n < floor:
         raise AnalysisError(f"anchor vanished: expected at least {floor} splitlines() offset computations in {rels}, found {n}")
